@@ -169,6 +169,15 @@ def run_case(versions: list[dict[str, str]], n: int, scheds: list[str], targets:
                         run["edit_warm_diffs"] = c3["diffs"]
                 sync_files(d, versions[1], versions[0], 100 + si)   # restore for the next schedule
                 # restoring bumps mtimes again; contents equal versions[0]
+                if not run.get("edit_inconclusive"):
+                    # revert run: hashes recorded by the parallel build for the EDITED state must not make modules look
+                    # fresh now that the sources are back at the original state
+                    w3 = _cli(d, [*fl, "--cache-dir", cache, *targets], env_plain)
+                    c4 = diag.compare(w3["out"] + w3["err"], out["seq0"]["out"], w3["status"], seq0["status"])
+                    run["revert_warm_equal"] = c4["equal"]
+                    if not c4["equal"]:
+                        run["revert_warm_diffs"] = c4["diffs"]
+                        run["revert_warm_out"] = w3["out"] + w3["err"]
             shutil.rmtree(cache, ignore_errors=True)
             out["runs"].append(run)
         return out
